@@ -38,7 +38,8 @@ def case(ctx, i, tier):
     rng = ctx.rng
     fcls = rng.choice([ES, NK])
     AbstractContract.now = datetime.min
-    ch = FutureChain(fcls, "2019-01", "2020-12")
+    ch = FutureChain(fcls, "2019-01", "2021-12")
+    ch1 = FutureChain(fcls, "2019-01", "2021-12", month=1)     # second-month chain over the same contracts
     objs = {"A": ETF("A"), "B": Stock("B"), "I": Index("I"), "SPY": ETF("SPY")}
     for c in ch.contracts:
         objs[c.symbol] = c
@@ -128,6 +129,8 @@ def case(ctx, i, tier):
                       and same(lob.acq_price(0), (mm["ask"] + mm["bid"]) / 2)
                       and same(lob.liq_price(0), (mm["ask"] + mm["bid"]) / 2), symbol=s_)
         ctx.check("C14:chain-key-is-lead", ex[ch] is ex[lead] and ex[ch] is ex[lead.symbol], lead=lead.symbol, now=t)
+        second = [c for c in ch.contracts if c.last_trading_date > t][1]
+        ctx.check("C14:chain-key-is-lead", ex[ch1] is ex[second], second=second.symbol, now=t, offset=1)
         keys = [o for _, o in subset] or list(objs.values())[:1]
         signs = np.array([rng.choice([-1.0, 1.0]) for _ in keys])
         okv = all(same(x, m(k.symbol)["bid"]) for x, k in zip(ex.bid_prices(keys), keys)) and \
